@@ -30,6 +30,11 @@ MUTS = {
  "M20_wrapper_name_reversed": ("C14", "graphiq/utils/openqasm_lib.py", "        gate_name += oq_info.gate_name\n", "        gate_name = oq_info.gate_name + gate_name\n"),
  "M21_tokeniser_no_sdg": ("C14", "graphiq/circuit/circuit_dag.py", 'for letter in re.findall(r"sdg|.", name)', 'for letter in re.findall(r".", name)'),
  # ---- C15
+ "N25_edge_match_first_key": ("C15", "graphiq/utils/circuit_comparison.py", """        roles1 = sorted(str(d["control_target"]) for d in e1.values())
+        roles2 = sorted(str(d["control_target"]) for d in e2.values())
+        return roles1 == roles2""", """        val1 = next(iter(e1))
+        val2 = next(iter(e2))
+        return e1[val1]["control_target"] == e2[val2]["control_target"]"""),
  "N24_direct_identity_one_side": ("C15", "graphiq/utils/circuit_comparison.py", "    circuit1.remove_identity()\n    circuit2.remove_identity()\n\n    n_reg_match", "    circuit1.remove_identity()\n\n    n_reg_match"),
  "N1_direct_ignores_registers": ("C15", "graphiq/utils/circuit_comparison.py", """                control_match = (
                     op1.q_registers_type == op2.q_registers_type
